@@ -73,20 +73,6 @@ class Float(float, AnyAtomicType):
     def __hash__(self) -> int:
         return super(Float, self).__hash__()
 
-    def __eq__(self, other: object) -> bool:
-        if isinstance(other, self.__class__):
-            if super(Float, self).__eq__(other):
-                return True
-            return math.isclose(self, other, rel_tol=1e-7, abs_tol=0.0)
-        return super(Float, self).__eq__(other)
-
-    def __ne__(self, other: object) -> bool:
-        if isinstance(other, self.__class__):
-            if super(Float, self).__eq__(other):
-                return False
-            return not math.isclose(self, other, rel_tol=1e-7, abs_tol=0.0)
-        return super(Float, self).__ne__(other)
-
     def __add__(self, other: object) -> Union[float, 'Float']:
         if isinstance(other, (self.__class__, int)) and not isinstance(other, bool):
             return self.__class__(super(Float, self).__add__(other))
